@@ -374,7 +374,12 @@ class ChartRules:
             for a, p in e.cond:
                 for t in subterms(a):
                     if t[0] == "cmp" and t[1] == "in" and strip(t[2]) == tag:
-                        table = t[3]
+                        # (the tag may be tested against other collections as well -- the required tags, a set of titles
+                        # already reported: the header table is the mapping among them)
+                        if table is None or t[3][0] == "dict" or (t[3][0] == "comp" and t[3][1] == "dict"):
+                            if not (table is not None and (table[0] == "dict" or (table[0] == "comp" and table[1] == "dict"))
+                                    and not (t[3][0] == "dict" or (t[3][0] == "comp" and t[3][1] == "dict"))):
+                                table = t[3]
         if table is None:
             fail(r, ctx, f, loop.node, "no membership test of the section tag against the header table found")
             return None
@@ -389,6 +394,10 @@ class ChartRules:
             fail(r, ctx, f, f.node, f"the header table does not fold to a constant: {e}")
             return
         want = {d + i for d in FORMAT_DIFFICULTIES for i in FORMAT_INSTRUMENTS}
+        if not isinstance(tab, dict):
+            fail(r, ctx, f, f.node, f"the collection the section tag is tested against is not a mapping from header names to (instrument, difficulty) "
+                                    f"pairs: {type(tab).__name__}")
+            return
         r.inst(f"header table: {len(tab)} keys")
         if set(tab) != want:
             fail(r, ctx, f, f.node, f"header table keys differ from the file format's 40 '<Difficulty><Instrument>' names: missing "
